@@ -288,6 +288,11 @@ func (rb *RingBuffer) DiscardStride(stride uint64) (err error) {
 	if newRp%stride > 0 {
 		newRp -= newRp % stride
 	}
+	if newRp < rb.desc.readPointer {
+		// No stride boundary lies between the read and write pointers. Never move the read
+		// pointer backwards: that would return already-read bytes a second time.
+		return nil
+	}
 	rb.desc.readPointer = newRp
 	return nil
 }
